@@ -875,6 +875,13 @@ func (repo *Repository) consolidate(ctx context.Context) error {
 
 	longestBranch := repo.longest
 
+	// Heights at which the longest chain leaves each of the branches in its ancestry. The headers
+	// of those branches up to that height become part of the new main branch.
+	leaveHeights := make(map[*Branch]int)
+	for current := longestBranch; current.parent != nil; current = current.parent {
+		leaveHeights[current.parent] = current.parentHeight
+	}
+
 	// Convert longest branch into oldest branch.
 	newMainBranch, linkHeight, err := longestBranch.Consolidate(ctx, repo.store, oldestBranch)
 	if err != nil {
@@ -889,13 +896,16 @@ func (repo *Repository) consolidate(ctx context.Context) error {
 
 	newBranches := Branches{newMainBranch}
 
-	// Reconnect previously oldest branch to the new main branch.
-	newOldestBranch, err := oldestBranch.Truncate(ctx, repo.store, newMainBranch, linkHeight)
-	if err != nil {
-		return errors.Wrap(err, "truncate previous oldest to main")
-	}
+	// Reconnect previously oldest branch to the new main branch, unless all of it is in the new
+	// main branch.
+	if linkHeight < oldestBranch.Height() {
+		newOldestBranch, err := oldestBranch.Truncate(ctx, repo.store, newMainBranch, linkHeight)
+		if err != nil {
+			return errors.Wrap(err, "truncate previous oldest to main")
+		}
 
-	newBranches = append(newBranches, newOldestBranch)
+		newBranches = append(newBranches, newOldestBranch)
+	}
 
 	// Sort by parent height so they can be properly connected to the new main branch.
 	sort.Sort(repo.branches)
@@ -907,7 +917,18 @@ func (repo *Repository) consolidate(ctx context.Context) error {
 			continue // already replaced by new branches
 		}
 
-		newBranch, err := branch.Connect(ctx, repo.store, newBranches)
+		var newBranch *Branch
+		var err error
+		if leaveHeight, isAncestor := leaveHeights[branch]; isAncestor {
+			// The first headers of this branch are now in the new main branch, so only what is
+			// above them remains a branch.
+			if leaveHeight >= branch.Height() {
+				continue // all of this branch is in the new main branch
+			}
+			newBranch, err = branch.Truncate(ctx, repo.store, newMainBranch, leaveHeight)
+		} else {
+			newBranch, err = branch.Connect(ctx, repo.store, newBranches)
+		}
 		if err != nil {
 			logger.ErrorWithFields(ctx, []logger.Field{
 				logger.String("branch_name", branch.Name()),
